@@ -42,6 +42,22 @@ Qed.
 Lemma abs_mul_lt_zero x m : 0 < m -> Z.abs (x * m) < m -> x = 0.
 Proof. intros Hm H. destruct (Z.eq_dec x 0); [assumption|]. exfalso. nia. Qed.
 
+Lemma mul_eq_1_abs y g : 0 <= g -> Z.abs y * g = 1 -> y = 1 \/ y = -1.
+Proof. intros Hg H. destruct (Z.eq_mul_1_nonneg (Z.abs y) g ltac:(lia) H). lia. Qed.
+
+Lemma size_bound A b k m r1 T : 0 < m -> 1 <= k -> 0 < b -> 0 <= r1 < k -> 0 <= T -> 0 <= A ->
+  k * T <= m -> A * m + b * k * k <= k * m -> A * T + b * r1 < m.
+Proof.
+  intros Hm Hk Hb Hr HT HA HkT Hsz.
+  assert (H1 : A * (k * T) <= A * m) by (apply Z.mul_le_mono_nonneg_l; lia).
+  assert (H2 : (b * k) * r1 <= (b * k) * (k - 1)) by (apply Z.mul_le_mono_nonneg_l; [apply Z.mul_nonneg_nonneg; lia|lia]).
+  assert (H0 : 0 < b * k) by (apply Z.mul_pos_pos; lia).
+  assert (H3 : k * (A * T + b * r1) < k * m).
+  { replace (k * (A * T + b * r1)) with (A * (k * T) + (b * k) * r1) by ring.
+    replace ((b * k) * (k - 1)) with (b * k * k - b * k) in H2 by ring. lia. }
+  apply Z.mul_lt_mono_pos_l in H3; lia.
+Qed.
+
 (* the candidate left by the loop is +-(a,b) *)
 Lemma envelope_candidate F m k r0 t0 r1 t1 a b :
   0 < m -> 1 <= k -> Inv F m k r0 t0 r1 t1 -> Basis F m r0 t0 r1 t1 -> r1 < k ->
@@ -56,33 +72,25 @@ Proof.
   all: assert (Hkt : k * Z.abs t1 <= m) by
          (assert (0 <= r1 * Z.abs t0) by (apply Z.mul_nonneg_nonneg; lia);
           assert (k * Z.abs t1 <= r0 * Z.abs t1) by (apply Z.mul_le_mono_nonneg_r; lia); lia).
-  all: assert (Hsize : Z.abs (a * t1 - b * r1) < m).
-  1,3: assert (H1 : k * (Z.abs a * Z.abs t1) <= Z.abs a * m)
-         by (replace (k * (Z.abs a * Z.abs t1)) with (Z.abs a * (k * Z.abs t1)) by lia;
-             apply Z.mul_le_mono_nonneg_l; lia);
-       assert (H2 : k * (b * r1) <= b * k * (k - 1))
-         by (replace (k * (b * r1)) with (b * k * r1) by lia; apply Z.mul_le_mono_nonneg_l; nia);
-       assert (H3 : k * (Z.abs a * Z.abs t1 + b * r1) < k * m) by nia;
-       assert (H4 : Z.abs a * Z.abs t1 + b * r1 < m) by nia;
-       assert (H5 : Z.abs (a * t1) = Z.abs a * Z.abs t1) by apply Z.abs_mul;
-       assert (H6 : 0 <= b * r1) by nia;
-       lia.
+  all: assert (Hsize : Z.abs (a * t1 - b * r1) < m) by
+         (pose proof (size_bound (Z.abs a) b k m r1 (Z.abs t1) Hm Hk Hb ltac:(lia) ltac:(lia) ltac:(lia) Hkt Hsz) as H4;
+          assert (H5 : Z.abs (a * t1) = Z.abs a * Z.abs t1) by apply Z.abs_mul;
+          assert (H6 : 0 <= b * r1) by (apply Z.mul_nonneg_nonneg; lia);
+          lia).
   - assert (Hx : a * t1 - b * r1 = x * m) by (rewrite <- HD, Ha, Hb'; ring).
     rewrite Hx in Hsize. apply abs_mul_lt_zero in Hsize; [|lia]. subst x.
     assert (Ha' : a = y * r1) by lia. assert (Hb'' : b = y * t1) by lia.
     rewrite Ha', Hb'' in Hg. rewrite Z.gcd_mul_mono_l in Hg.
-    pose proof (Z.gcd_nonneg r1 t1).
-    assert (Hy : Z.abs y = 1) by nia.
-    destruct (Z.abs_eq_cases y 1 ltac:(lia)) as [Y|Y].
+    pose proof (Z.gcd_nonneg r1 t1) as H.
+    destruct (mul_eq_1_abs y _ H Hg) as [Y|Y].
     + left; split; lia.
     + right; split; lia.
   - assert (Hx : a * t1 - b * r1 = (- x) * m) by (replace (- x * m) with (x * - m) by lia; rewrite <- HD, Ha, Hb'; ring).
     rewrite Hx in Hsize. apply abs_mul_lt_zero in Hsize; [|lia]. assert (x = 0) by lia. subst x.
     assert (Ha' : a = y * r1) by lia. assert (Hb'' : b = y * t1) by lia.
     rewrite Ha', Hb'' in Hg. rewrite Z.gcd_mul_mono_l in Hg.
-    pose proof (Z.gcd_nonneg r1 t1).
-    assert (Hy : Z.abs y = 1) by nia.
-    destruct (Z.abs_eq_cases y 1 ltac:(lia)) as [Y|Y].
+    pose proof (Z.gcd_nonneg r1 t1) as H.
+    destruct (mul_eq_1_abs y _ H Hg) as [Y|Y].
     + left; split; lia.
     + right; split; lia.
 Qed.
@@ -114,7 +122,7 @@ Proof.
   pose proof (loop_basis (init_r1 f m) m k _ _ _ _ _ _ (Basis_init _ m) E) as HB.
   destruct s as [[[r0 t0] r1] t1]. destruct HI as [HI Hlt].
   f_equal. apply finish_first; try assumption.
-  eapply envelope_candidate; eauto; try lia.
+  apply (envelope_candidate (init_r1 f m) m k r0 t0 r1 t1 a b); try assumption; try lia.
   (* a == b f  and  F == f  give  a == b F *)
   eapply cong_trans; [exact Hc|]. apply cong_mul_l.
   destruct HF as [c H]. exists (- c). lia.
